@@ -97,7 +97,7 @@ theorem step_invalid (s e : List Nat) (q x : Nat) (h : x > maxCp) :
 theorem step_s (s e : List Nat) (q x : Nat) (hx : x ≤ maxCp) (hq : q < s.length) :
     firstEndStep s e q x = if s[q] = x then q + 1 else s.length + e.length + 1 := by
   have : ¬ x > maxCp := by omega
-  simp [firstEndStep, this, hq, List.getElem?_eq_getElem hq]
+  simp [firstEndStep, this, hq]
 
 theorem step_kmp (s e : List Nat) (q x : Nat) (hx : x ≤ maxCp) (h1 : s.length ≤ q) (h2 : q < s.length + e.length) :
     firstEndStep s e q x = s.length + kmpStep e (q - s.length) x := by
